@@ -384,6 +384,11 @@ class PEval:
                 return a >> b
             if isinstance(op, ast.LShift) and isinstance(a, int) and isinstance(b, int) and b <= 16:
                 return a << b
+        if isinstance(op, ast.Mult) and ((isinstance(a, list) and isinstance(b, int)) or (isinstance(b, list) and isinstance(a, int))) and not isinstance(a, bool) and not isinstance(b, bool):
+            lst, k = (a, b) if isinstance(a, list) else (b, a)
+            if k > 64:
+                raise Undecided("long list repetition")
+            return list(lst) * k
         if isinstance(op, ast.Add):
             if isinstance(a, list) and isinstance(b, list):
                 return a + b
@@ -546,6 +551,9 @@ class PEval:
                 lo = lo.term if isinstance(lo, Sym) else lo
                 hi = hi.term if isinstance(hi, Sym) else hi
                 return Sym(("slice", base.term, lo, hi))
+            if isinstance(sl, ast.Slice) and sl.lower is None and sl.step is None and sl.upper is not None:
+                k = self.ev(sl.upper, env)
+                return Sym(("slice0", base.term, k.term if isinstance(k, Sym) else k))
             raise Undecided("indexing %s" % norm_text(node)[:50])
         raise Undecided("subscript of %r" % (base,))
 
@@ -585,6 +593,30 @@ class PEval:
                 if len(vals) == 1:
                     return {"round": round, "abs": abs, "ceil": math.ceil, "floor": math.floor, "float": float}[name](vals[0])
             raise Undecided("%s of a symbolic value" % fn_text)
+        if fn_text.split(".")[-1] == "merge_leading_dims" and e.args:
+            a = self.ev(e.args[0], env)
+            nd = kw.get("num_dims", self.ev(e.args[1], env) if len(e.args) > 1 else None)
+            if isinstance(a, Sym) and nd == 2:
+                return Sym(("merge", a.term))
+            raise Undecided("merge_leading_dims")
+        if fn_text.split(".")[-1] == "split_leading_dim" and e.args:
+            a = self.ev(e.args[0], env)
+            shp = kw.get("shape", self.ev(e.args[1], env) if len(e.args) > 1 else None)
+            if isinstance(a, Sym) and isinstance(shp, (list, tuple)) and len(shp) == 2:
+                return Sym(("split", a.term, tuple(x.term if isinstance(x, Sym) else x for x in shp)))
+            raise Undecided("split_leading_dim")
+        if fn_text in ("torch.as_tensor", "torch.tensor") and e.args:
+            a = self.ev(e.args[0], env)
+            if isinstance(a, Sym):
+                return a  # already a tensor
+            raise Undecided("%s of a non-tensor" % fn_text)
+        if fn_text == "divmod" and len(e.args) == 2:
+            a, b = self.ev(e.args[0], env), self.ev(e.args[1], env)
+            if isinstance(a, int) and isinstance(b, int):
+                if b == 0:
+                    raise Raises("ZeroDivisionError")
+                return divmod(a, b)
+            raise Undecided("divmod of symbolic values")
         if fn_text == "int" and len(e.args) == 1:
             a = self.ev(e.args[0], env)
             if isinstance(a, (int, float)):
